@@ -343,6 +343,8 @@ func (ds *DSetup) TargetEdits(b *EnvBudget) []EnvOp {
 					{"added": nil, "own-label": nil},
 					{"own-label": "overwritten"},
 					{},
+					// a hook that keeps sending nulls for keys the target never had, next to a key that changes
+					{"added": "yes", "extra": fmt.Sprint(w.step), "legacy-1": nil, "legacy-2": nil, "legacy-3": nil, "legacy-4": nil, "legacy-5": nil},
 				}
 				v := variants[w.T.Pick(len(variants), "labelvariant")]
 				EditObject(w, p.Res, p.NS, p.Name, "user", func(o Object) {
